@@ -172,6 +172,10 @@ def wiring(ck, mod):
             else:
                 ok = ok and not moveh and not ringh
             ck.struct("m.wiring", ok, "%s: handlers %s" % (tag, kinds), {"attr": tag})
+            if ringh and copyh:
+                # events reach the handlers in list order: a metadata file must be copied before the count-1 ringbuffer may expire it
+                ck.struct("m.wiring.copy_before_expiry", all(hs.index(copyh[0]) < hs.index(r_) for r_ in ringh),
+                          "%s: handler order %s (the ringbuffer that deletes old metadata files from the source must come after the copying handler)" % (tag, [k_[0] for k_ in kinds]), {"attr": tag})
             # which paths does each handler accept?  (behavioural wiring check on the real dispatch filter)
             rf = "/tmp/ch/2017-01-01T00-00-00/rf@1483228800.000.h5"
             md = "/tmp/ch/metadata/2017-01-01T00-00-00/metadata@1483228800.h5"
@@ -209,6 +213,7 @@ def run(tier, seed, replay=None):
     mod = pyload.module("mirror", symbolic=False)
     mirror_effects(ck, mod)
     wiring(ck, mod)
+    ck.replayers["m."] = replay_mirror
     ck.discharge() if ck.obls else None
     n = 150 if tier == "thorough" else 25
     r = replay_py.run_driver("mirror_history.py", {"seed": seed, "cases": n, "max_failures": 3}, timeout=3000)
